@@ -24,6 +24,11 @@
 #include <chrono>
 #include <cds/compiler/backoff.h>
 
+#if defined(KHIZMAX_LIBCDS_VERIF)
+// Verification build: spinning back-off is reported to the verification scheduler
+namespace cdsverif { void yield_point() noexcept; }
+#endif
+
 namespace cds {
     /// Different backoff schemes
     /**
@@ -104,6 +109,9 @@ namespace cds {
             //@cond
             void operator ()() const noexcept
             {
+#            if defined(KHIZMAX_LIBCDS_VERIF)
+                cdsverif::yield_point();
+#            endif
 #            ifdef CDS_backoff_hint_defined
                 platform::backoff_hint();
 #            endif
@@ -133,6 +141,9 @@ namespace cds {
         //@cond
             void operator ()() const noexcept
             {
+#           if defined(KHIZMAX_LIBCDS_VERIF)
+                cdsverif::yield_point();
+#           endif
 #           if defined(CDS_backoff_hint_defined)
                 platform::backoff_hint();
 #           elif defined(CDS_backoff_nop_defined)
